@@ -68,8 +68,10 @@ class Check(common.Check):
                     later = [u for _, u in adds if u > t]     # only later ids: no re-registration cycles
                     if later:
                         ops.append(['a', rng.randrange(0, 5), rng.choice(later)])   # move / re-register
-                else:
+                elif r < 0.9:
                     ops.append(['r', rng.choice(adds)[1]])                       # cancel
+                else:
+                    ops.append(['r', t])          # the running action removes ITSELF (as the library's stop() methods do)
             if ops:
                 beh[str(t)] = ops
         # no action re-registers itself (would never terminate)
